@@ -81,6 +81,13 @@ package executor
 //@   modifies ks_i32, events
 //@   ensures[C09] err == nil ==> old(actionPaused(s.Executor, actionByName(msg.ActionId))) && actionSetIs(s.Executor, actionByName(msg.ActionId), false)
 
+// The listing query reports exactly the paused set: the enumeration of the stored set, unaltered.
+//@ func (s queryServer) PausedActions(ctx, req) (resp, err)
+//@   requires[inv] s.Executor != nil && storedActionsOK(s.Executor)
+//@   modifies it_pos, it_set
+//@   ensures[C09] err == nil ==> resp != nil && len(resp.ActionIds) == enumLenI32(aset(s.Executor)) && forall j int trigger(resp.ActionIds[j]) :: 0 <= j && j < len(resp.ActionIds) ==> resp.ActionIds[j] == enumAtI32(aset(s.Executor), j)
+//@   ensures[C09] ks_i32 == old(ks_i32)
+
 //@ func (s queryServer) IsActionPaused(ctx, req) (resp, err)
 //@   requires[base] s.Executor != nil
 //@   ensures[C09] err == nil ==> resp != nil && req != nil && resp.IsPaused == actionPaused(s.Executor, actionByName(req.ActionId))
@@ -95,12 +102,12 @@ package executor
 //@   requires[inv] e != nil
 //@   requires[inv] storedActionsOK(e)
 //@   ensures[C17] err == nil                         // (A-COLL-OK, store invariant)
-//@   ensures[C17] enumFactsI32(aset(e))              // handed on from the iterator's spec (A-COLL-ENUM)
+//@   ensures[C17,C09] enumFactsI32(aset(e))              // handed on from the iterator's spec (A-COLL-ENUM)
 //@   modifies it_pos, it_set
-//@   loop 0 invariant[C17] it_set[deref(iter)] == old(aset(e)) && len(paused) == it_pos[deref(iter)] && it_pos[deref(iter)] >= 0 && it_pos[deref(iter)] <= enumLenI32(old(aset(e)))
-//@   loop 0 invariant[C17] forall j int :: 0 <= j && j < len(paused) ==> paused[j] == enumAtI32(old(aset(e)), j)
-//@   ensures[C17] err == nil ==> len(ids) == enumLenI32(aset(e)) && forall j int trigger(ids[j]) :: 0 <= j && j < len(ids) ==> ids[j] == enumAtI32(aset(e), j)
-//@   ensures[C17] ks_i32 == old(ks_i32)
+//@   loop 0 invariant[C17,C09] it_set[deref(iter)] == old(aset(e)) && len(paused) == it_pos[deref(iter)] && it_pos[deref(iter)] >= 0 && it_pos[deref(iter)] <= enumLenI32(old(aset(e)))
+//@   loop 0 invariant[C17,C09] forall j int :: 0 <= j && j < len(paused) ==> paused[j] == enumAtI32(old(aset(e)), j)
+//@   ensures[C17,C09] err == nil ==> len(ids) == enumLenI32(aset(e)) && forall j int trigger(ids[j]) :: 0 <= j && j < len(ids) ==> ids[j] == enumAtI32(aset(e), j)
+//@   ensures[C17,C09] ks_i32 == old(ks_i32)
 
 // The exported genesis lists exactly the paused actions (the enumeration of the set), and is valid:
 // every identifier supported (store invariant), none twice (an enumeration has no repetitions).
